@@ -25,8 +25,10 @@ def one(p):
         rid = p.split("/")[-2]
         bad = {}
         for k, v in j.items():
-            if k in UNDECIDABLE_REFACTORS.get(rid, ()) and not v["error"] \
-                    and v["undecided"] and not [
+            floor = (v["error"] or "").startswith("rule ")   # instance floor
+            if k in UNDECIDABLE_REFACTORS.get(rid, ()) and \
+                    (not v["error"] or floor) \
+                    and (v["undecided"] or floor) and not [
                         x for x in v["violated"]
                         if "no-uniqueness" not in x and
                         "Plane.XZ:axes='sxyz':angle_position=1" not in x]:
